@@ -39,6 +39,8 @@ where
         .codegen_set_addr(LOOP_ADDR)
         .jump(LOOP_ADDR);
     emulator.cpu.regs.set_pc(LOOP_ADDR);
+    // Previously executed code could leave CPU halted or in the middle of prefixed opcode
+    emulator.cpu.reset_control_state();
 
     // Directly load screen memory from the asset
     let memory = emulator.controller.memory.ram_page_data_mut(bank);
